@@ -238,12 +238,14 @@ def gen_texts():
     rg = ["import Cppcheck.Model.XmlEsc",
           "/- GENERATED by vlib/props/c26.py from cppcheck-errors.rng — do not edit -/",
           "namespace Cppcheck.Gen.RngAttrs", "",
-          "/-- element, required attributes, optional attributes, child elements -/",
-          "def elements : List (String × List String × List String × List String) := ["]
-    rg.append(",\n".join("  (%s, [%s], [%s], [%s])" % (lean_str(k), ", ".join(lean_str(a) for a in v[0]), ", ".join(lean_str(a) for a in v[1]),
-                                                        ", ".join(lean_str(a) for a in v[2])) for k, v in sorted(rngel.items())))
+          "/-- element, required attributes, optional attributes, child elements (names as character lists) -/",
+          "def elements : List (List Char × List (List Char) × List (List Char) × List (List Char)) := ["]
+    rg.append(",\n".join("  -- %s: required %s optional %s children %s\n  (%s, [%s], [%s], [%s])" % (
+        k, v[0], v[1], v[2], lean_chars(k), ", ".join(lean_chars(a) for a in v[0]), ", ".join(lean_chars(a) for a in v[1]),
+        ", ".join(lean_chars(a) for a in v[2])) for k, v in sorted(rngel.items())))
     rg += ["]", "",
-           "def severityValues : List String := [" + ", ".join(lean_str(v) for v in rngel["error"][3]["severity"]["values"]) + "]",
+           "-- severity values: %s" % rngel["error"][3]["severity"]["values"],
+           "def severityValues : List (List Char) := [" + ", ".join(lean_chars(v) for v in rngel["error"][3]["severity"]["values"]) + "]",
            "", "end Cppcheck.Gen.RngAttrs", ""]
     return {GEN_ENT: "\n".join(ent), GEN_TPL: "\n".join(tp), GEN_RNG: "\n".join(rg)}, dict(entities=ents, range=rng, restricted=restricted, templates=tpls, rng=rngel)
 
